@@ -63,6 +63,49 @@ CLAIMED = {
                      'changed multiplicities must give the identical statistic.',
                 note='ln(1-exp(-rate)) evaluated literally in floats loses eps/rate relative accuracy; the model uses expm1 and '
                      'tolerates that much. Known finding K01 (active zero-rate bin) is listed in known_findings.json.'),
+    'C04': dict(engine='catsim', design='4/C04',
+                technique='deterministic simulation: seeded call histories by several actors on shared mutable catalog handles '
+                          '(orders, groupings, repetition, in_place modes, TZ switches) against a list-of-tuples reference model',
+                text='filter / filter_spatial mutate their receiver by default, so the property is a statement about call '
+                     'histories: 1-3 actors issue FILTER (string, list, tuple; in_place on/off), FILTER_DEFAULT, '
+                     'FILTER_SPATIAL, REGROUP (same statements in five orders / groupings on twins), REPEAT, DATETIME_EQUIV, '
+                     'LOAD_APPLY and TZ_SWITCH ops; after every op every live handle is compared bit-exactly with the model, '
+                     'in_place=False must leave the receiver byte-identical, thresholds equal event values and their ulp '
+                     'neighbours, instants cover 1900..2200 at every millisecond phase.',
+                note='Trusts the literal reference semantics float(attribute) op float(value); spatial membership is unambiguous '
+                     'by construction (points strictly inside cells or clearly outside).'),
+    'C11': dict(engine='gridsim', design='4/C11',
+                technique='deterministic simulation: generated forecast files delivered in drawn row/column orders, then seeded '
+                          'scale / scale_to_test_date / lookup / evaluation histories by two actors against a last-factor model',
+                text='The simulator writes the forecast file (lattice anchored anywhere incl. near 0, five spacings, holes, '
+                     'flag-0 cells, 1..5 magnitude bins, three cell orders, lat/lon swap, quadtree ascii layout), loads it with '
+                     'the real loader and drives a history of SCALE, SCALE_TO_DATE (before/at/inside/after the window), READ, '
+                     'LOOKUP (interiors, lower corners and edges, lower magnitude edges, open top bin), LOOKUP_OUTSIDE, '
+                     'TARGET_RATES and EVAL; after every op data == file rates x last factor bit-exactly, marginals sum to the '
+                     'total, lookups return the row\'s rate, and an evaluation equals that on a freshly loaded and once-scaled twin.',
+                note='Uses the library\'s decimal_year for the in-window factor (C15 is not re-judged); out-of-window '
+                     'scale_to_test_date may keep the factor or reset it to 1 (docstring and code disagree).'),
+    'C14': dict(engine='persistsim', design='4/C14',
+                technique='deterministic simulation: write-close-read histories through an open() proxy on a scratch store under '
+                          'a simulated wall clock (jumps, zero-microsecond instants) and time-zone switches; logical-catalog model',
+                text='Catalogs are constructed at simulated instants (the construction instant is serialised by the JSON form and '
+                     're-parsed by format sniffing), saved as ASCII / JSON / dict / DataFrame, reloaded, re-saved for a second and '
+                     'third generation, and overwritten, while the clock jumps forward, backward, onto zero-microsecond instants '
+                     'and anywhere in 1900..2200 and TZ changes; after each load the events (id bytes, int64 ms, four doubles '
+                     'bit-exact, order), the integer catalog id and - for dict/JSON - name and region are compared with the model; '
+                     'the open() proxy asserts that no file is read while still open for writing.',
+                note='Preconditions: a catalog bound to a region holds only in-region events (to_dataframe asks the region); an '
+                     'empty ASCII file / DataFrame has no row to carry the id.'),
+    'C18': dict(engine='persistsim', design='4/C18',
+                technique='deterministic simulation: results produced by engine-A/engine-B runs under their perturbations are '
+                          'written and re-read through storage at simulated instants; field-wise comparison after reload',
+                text='Every result object produced by a seeded fcsim or rngsim run (all catalog-based and gridded tests, incl. '
+                     'infinite, NaN and None statistics, not-valid / undersampled statuses), plus N, NBD-N, paired-T/W and '
+                     'calibration results, is saved with csep.write_json and loaded with csep.load_evaluation_result; class, '
+                     'name, status, statistic, quantile, numeric distribution, names and min_mw must be equal. A generated '
+                     'lattice is rebuilt from its dict and probed at interiors, corners, edges and outside points.',
+                note='Equality is NaN-aware with tuple == list; producers that raise for reasons outside C18 (paired T/W '
+                     'preconditions, scipy API) yield no result and are counted.'),
 }
 
 NOT_APPLICABLE = {
@@ -79,7 +122,7 @@ NOT_APPLICABLE = {
 }
 
 PENDING = {p: 'not claimed yet: the simulator engine for this property is still under construction (DESIGN.md section 10); it is a simulation target and will be claimed when its check exists'
-           for p in ('C04', 'C11', 'C14', 'C18', 'C20')}
+           for p in ('C20',)}
 
 
 def main():
